@@ -716,6 +716,8 @@ impl Array {
     /// ```
     pub fn op(arrays: &[&Array], op: ForwardOp, backward_op: Option<BackwardOp>) -> Array {
         let result = op(arrays);
+        // the result is a node of its own, even if the closure returned a clone of one of its operands
+        let result = Array::from((result.dimensions.clone(), Rc::clone(&result.values)));
         // an operation with every child untracked outputs an untracked array, without subgraph information
         let backward_op = backward_op.filter(|_| arrays.iter().any(|v| v.is_tracked.get()));
         if let Some(backward_op) = backward_op {
